@@ -1,5 +1,6 @@
-// Group `report`: unit V8 — `process_violations` (src/main.rs) and the two accessors it uses.
+// Group `report`: unit V8 — `process_violations` (src/main.rs) and the functions it uses.
 //   V8d  `Violation::as_simple_diagnostic`, V8v `SimpleDiagnostic::severity` (src/validators/mod.rs)
+//   V8p  `with_printable_paths` (src/main.rs, whole function): a report keyed by paths -> keyed by printable texts
 //   V8   `process_violations` (whole function)
 //   V8g  `main`'s guard `if !violations.is_empty() { process_violations(violations)?; }` (slice)
 // Properties: C11 (exit 1 exactly when a diagnostic of severity error exists; every violation is
@@ -18,6 +19,7 @@ verus! {
 
 //@include prelude/orch_model.rs
 //@include prelude/orch_maps.rs
+//@include prelude/report_printable.rs
 
 //@item file=src/validators/mod.rs kind=struct name=SimpleDiagnostic
 
@@ -44,9 +46,11 @@ impl From<std::io::Error> for anyhow::Error {
     fn from(e: std::io::Error) -> anyhow::Error { anyhow::verif_err() }
 }
 
-/// E1: `writeln!(&mut stderr)`
+/// E1: `writeln!(&mut stderr)`: fails exactly when the writer does (`stderr_newline_ok`, uninterpreted: the world
+/// decides); body = the identical macro call.
 #[verifier::external_body]
 pub fn verif_writeln(w: &mut std::io::StderrLock<'static>) -> (r: Result<(), std::io::Error>)
+    ensures r is Ok <==> stderr_newline_ok(),
 {
     use std::io::Write;
     writeln!(w)
@@ -76,6 +80,30 @@ pub open spec fn report_is(d: Map<PathBuf, Vec<serde_json::Value>>, v: SpecViola
     &&& forall|f: PathBuf| d.contains_key(f) <==> v.contains_key(f)
     &&& forall|f: PathBuf| v.contains_key(f) ==> list_serialised(d[f]@, #[trigger] v[f])
 }
+
+// ---- the world: stderr (uninterpreted; nothing is assumed about when a write succeeds) --------------------
+/// writing this map as one pretty-printed JSON object to the locked stderr succeeds (generic in the key type: the
+/// statement is about the writer, not about what serde makes of the keys - that is `keys_serialisable`)
+pub uninterp spec fn stderr_write_ok<K>(m: Map<K, Vec<serde_json::Value>>) -> bool;
+/// writing the final newline to stderr succeeds
+pub uninterp spec fn stderr_newline_ok() -> bool;
+
+/// C11, the only admissible reason for a run without error-severity diagnostics to fail at the reporting stage:
+/// the complete report of `v` (every violation once, under its file: `report_is`), keyed by printable paths
+/// (`is_printable`: nothing lost, nothing duplicated), was handed to the writer and stderr did not take it
+pub open spec fn stderr_report_fails(v: SpecViolations) -> bool {
+    exists|rep: Map<PathBuf, Vec<serde_json::Value>>, out: Map<String, Vec<serde_json::Value>>|
+        report_is(rep, v) && #[trigger] is_printable(out, rep) && !(stderr_write_ok(out) && stderr_newline_ok())
+}
+
+/// C11 "stderr is one JSON object mapping each file path to its list ... every violation appears in it exactly
+/// once": the complete report of `v`, keyed by printable paths, was written to stderr
+pub open spec fn stderr_report_written(v: SpecViolations) -> bool {
+    exists|rep: Map<PathBuf, Vec<serde_json::Value>>, out: Map<String, Vec<serde_json::Value>>|
+        report_is(rep, v) && #[trigger] is_printable(out, rep) && stderr_write_ok(out) && stderr_newline_ok()
+}
+
+// ---- end of the specification shared with group mainwire (//@copyfrom) -------------------------------------
 
 /// E4: once every entry of an arbitrary duplicate-free enumeration `ents` of the map has been
 /// processed, the report covers exactly the map's files.
@@ -141,6 +169,251 @@ impl SimpleDiagnostic<'_> {
         ensures s == self.severity, // [V8v.post.is_field]
 //@end
 }
+
+// ---------------------------------------------------------------------------------------------
+// V8p: `with_printable_paths` (src/main.rs, introduced by 6239843). C11: "one JSON object mapping each
+// file path to its list ... every violation appears in it exactly once" - the member names of a JSON object
+// are strings, a path need not be valid Unicode: the report is re-keyed by the lossy text of each path.
+
+/// T-std: `String`'s `Hash`/`Eq` are functions of its contents (vstd needs this for the `Map` view of
+/// `HashMap<String, _>`; same statement as prelude/tstr_mod.rs) ...
+pub broadcast axiom fn axiom_string_key_model()
+    ensures #[trigger] vstd::std_specs::hash::obeys_key_model::<String>();
+
+/// ... and two `String`s with equal contents are the same key (`impl PartialEq for String` compares the
+/// bytes; vstd views a `String` as its `Seq<char>` but does not state extensionality).
+pub broadcast axiom fn axiom_string_view_injective(a: String, b: String)
+    ensures (#[trigger] a@ == #[trigger] b@) ==> a == b;
+
+/// E13 shim: `path.to_string_lossy().into_owned()` (`Path::to_string_lossy` returns `Cow<'_, str>`, which is outside
+/// Verus; `Cow::into_owned` is the same text as a `String`). Body = the identical std calls; T-std: the result is
+/// the function `path_text` of the path.
+#[verifier::external_body]
+pub fn verif_path_text(path: &PathBuf) -> (r: String)
+    ensures r@ == path_text(*path),
+{ path.to_string_lossy().into_owned() }
+
+/// the files among the first `n` entries that are printed under the text `s`, in entry order ...
+pub open spec fn texts_order<V>(ents: Seq<(PathBuf, Vec<V>)>, s: Seq<char>, n: int) -> Seq<PathBuf>
+    decreases n
+{
+    if n <= 0 {
+        Seq::<PathBuf>::empty()
+    } else if path_text(ents[n - 1].0) == s {
+        texts_order(ents, s, n - 1).push(ents[n - 1].0)
+    } else {
+        texts_order(ents, s, n - 1)
+    }
+}
+
+/// ... and their lists, one after the other (what `extend` has accumulated under `s` after `n` entries)
+pub open spec fn texts_concat<V>(ents: Seq<(PathBuf, Vec<V>)>, s: Seq<char>, n: int) -> Seq<V>
+    decreases n
+{
+    if n <= 0 {
+        Seq::<V>::empty()
+    } else if path_text(ents[n - 1].0) == s {
+        texts_concat(ents, s, n - 1) + ents[n - 1].1@
+    } else {
+        texts_concat(ents, s, n - 1)
+    }
+}
+
+/// no entry so far has the text `s`: nothing accumulated under it
+pub proof fn lemma_texts_none<V>(ents: Seq<(PathBuf, Vec<V>)>, s: Seq<char>, n: int)
+    requires
+        0 <= n <= ents.len(),
+        forall|i: int| 0 <= i < n ==> path_text((#[trigger] ents[i]).0) != s,
+    ensures
+        texts_concat(ents, s, n) == Seq::<V>::empty(),
+        texts_order(ents, s, n) == Seq::<PathBuf>::empty(),
+    decreases n,
+{
+    if n > 0 {
+        lemma_texts_none(ents, s, n - 1);
+        assert(path_text(ents[n - 1].0) != s);
+    }
+}
+
+/// E4: whatever duplicate-free enumeration `ents` of the map the loop saw, `texts_order` lists exactly the files
+/// with text `s`, each once, and `texts_concat` is the concatenation of their lists in that order
+pub proof fn lemma_texts<V>(ents: Seq<(PathBuf, Vec<V>)>, m: Map<PathBuf, Vec<V>>, s: Seq<char>, n: int)
+    requires
+        entries_raw(ents, m),
+        0 <= n <= ents.len(),
+    ensures
+        forall|j: int| 0 <= j < texts_order(ents, s, n).len() ==> exists|i: int| 0 <= i < n && (#[trigger] ents[i]).0 == #[trigger] texts_order(ents, s, n)[j] && path_text(ents[i].0) == s,
+        forall|i: int| 0 <= i < n && path_text((#[trigger] ents[i]).0) == s ==> exists|j: int| 0 <= j < texts_order(ents, s, n).len() && #[trigger] texts_order(ents, s, n)[j] == ents[i].0,
+        forall|j: int, k: int| 0 <= j < k < texts_order(ents, s, n).len() ==> #[trigger] texts_order(ents, s, n)[j] != #[trigger] texts_order(ents, s, n)[k],
+        concat_lists(m, texts_order(ents, s, n)) == texts_concat(ents, s, n),
+    decreases n,
+{
+    if n > 0 {
+        lemma_texts(ents, m, s, n - 1);
+        let o0 = texts_order(ents, s, n - 1);
+        let o = texts_order(ents, s, n);
+        let f = ents[n - 1].0;
+        if path_text(f) == s {
+            assert(o == o0.push(f));
+            assert(o.drop_last() =~= o0);
+            assert(o.last() == f);
+            assert(m[f] == ents[n - 1].1);
+            assert forall|j: int| 0 <= j < o.len() implies exists|i: int| 0 <= i < n && (#[trigger] ents[i]).0 == #[trigger] o[j] && path_text(ents[i].0) == s by {
+                if j < o0.len() {
+                    let i = choose|i: int| 0 <= i < n - 1 && (#[trigger] ents[i]).0 == o0[j] && path_text(ents[i].0) == s;
+                    assert(0 <= i < n && ents[i].0 == o[j]);
+                } else {
+                    assert(ents[n - 1].0 == o[j]);
+                }
+            }
+            assert forall|i: int| 0 <= i < n && path_text((#[trigger] ents[i]).0) == s implies exists|j: int| 0 <= j < o.len() && #[trigger] o[j] == ents[i].0 by {
+                if i < n - 1 {
+                    let j = choose|j: int| 0 <= j < o0.len() && #[trigger] o0[j] == ents[i].0;
+                    assert(o[j] == ents[i].0);
+                } else {
+                    assert(o[o.len() - 1] == ents[i].0);
+                }
+            }
+            assert forall|j: int, k: int| 0 <= j < k < o.len() implies #[trigger] o[j] != #[trigger] o[k] by {
+                if k == o.len() - 1 {
+                    // `o[j]` is the key of an EARLIER entry; the keys of an enumeration are pairwise different
+                    let i = choose|i: int| 0 <= i < n - 1 && (#[trigger] ents[i]).0 == o0[j] && path_text(ents[i].0) == s;
+                    assert(ents[i].0 != ents[n - 1].0);
+                } else {
+                    assert(o0[j] != o0[k]);
+                }
+            }
+        } else {
+            assert(o == o0);
+        }
+    }
+}
+
+/// E4: at the end of the loop of V8p, for ANY enumeration order: the result is the report keyed by printable paths
+pub proof fn lemma_printable<V>(out: Map<String, Vec<V>>, report: Map<PathBuf, Vec<V>>, ents: Seq<(PathBuf, Vec<V>)>)
+    requires
+        entries_raw(ents, report),
+        forall|s: String| #[trigger] out.contains_key(s) <==> exists|i: int| 0 <= i < ents.len() && path_text((#[trigger] ents[i]).0) == s@,
+        forall|s: String| #[trigger] out.contains_key(s) ==> out[s]@ == texts_concat(ents, s@, ents.len() as int),
+    ensures
+        is_printable(out, report),
+{
+    assert forall|s: String| #[trigger] out.contains_key(s) <==> exists|f: PathBuf| report.contains_key(f) && #[trigger] path_text(f) == s@ by {
+        if out.contains_key(s) {
+            let i = choose|i: int| 0 <= i < ents.len() && path_text((#[trigger] ents[i]).0) == s@;
+            assert(report.contains_key(ents[i].0) && path_text(ents[i].0) == s@);
+        }
+        if exists|f: PathBuf| report.contains_key(f) && #[trigger] path_text(f) == s@ {
+            let f = choose|f: PathBuf| report.contains_key(f) && #[trigger] path_text(f) == s@;
+            let i = choose|i: int| 0 <= i < ents.len() && (#[trigger] ents[i]).0 == f;
+            assert(path_text(ents[i].0) == s@);
+        }
+    }
+    assert forall|s: String| #[trigger] out.contains_key(s) implies exists|order: Seq<PathBuf>| #[trigger] files_with_text(report, s@, order) && out[s]@ == concat_lists(report, order) by {
+        let n = ents.len() as int;
+        lemma_texts(ents, report, s@, n);
+        let order = texts_order(ents, s@, n);
+        assert forall|j: int| 0 <= j < order.len() implies report.contains_key(#[trigger] order[j]) && path_text(order[j]) == s@ by {
+            let i = choose|i: int| 0 <= i < n && (#[trigger] ents[i]).0 == order[j] && path_text(ents[i].0) == s@;
+            assert(report.contains_key(ents[i].0));
+        }
+        assert forall|f: PathBuf| report.contains_key(f) && #[trigger] path_text(f) == s@ implies exists|j: int| 0 <= j < order.len() && #[trigger] order[j] == f by {
+            let i = choose|i: int| 0 <= i < ents.len() && (#[trigger] ents[i]).0 == f;
+            assert(path_text(ents[i].0) == s@);
+        }
+        assert(files_with_text(report, s@, order));
+    }
+}
+
+/// Corollary (C11 "mapping each file path to its list"): where the texts of the report's files are pairwise
+/// different - always so when every path is valid Unicode - each file's list stands, unchanged, under its text.
+pub proof fn lemma_printable_injective<V>(out: Map<String, Vec<V>>, report: Map<PathBuf, Vec<V>>)
+    requires
+        is_printable(out, report),
+        path_text_injective_on(report),
+    ensures
+        forall|f: PathBuf, s: String| report.contains_key(f) && #[trigger] path_text(f) == #[trigger] s@ ==> out.contains_key(s) && out[s]@ == report[f]@, // [V8p.lemma.injective_text_keeps_each_list_under_its_path]
+{
+    assert forall|f: PathBuf, s: String| report.contains_key(f) && #[trigger] path_text(f) == #[trigger] s@ implies out.contains_key(s) && out[s]@ == report[f]@ by {
+        assert(out.contains_key(s));
+        let order = choose|order: Seq<PathBuf>| #[trigger] files_with_text(report, s@, order) && out[s]@ == concat_lists(report, order);
+        let j = choose|j: int| 0 <= j < order.len() && #[trigger] order[j] == f;
+        // every member of `order` has the text of `f`, hence IS `f`; members are pairwise different: one member
+        assert forall|k: int| 0 <= k < order.len() implies #[trigger] order[k] == f by {
+            assert(report.contains_key(order[k]) && path_text(order[k]) == path_text(f));
+        }
+        if order.len() > 1 {
+            assert(order[0] != order[1]);
+        }
+        assert(order.len() == 1);
+        assert(order.drop_last().len() == 0);
+        assert(concat_lists(report, order.drop_last()) == Seq::<V>::empty());
+        assert(order.last() == f);
+        assert(concat_lists(report, order) =~= report[f]@);
+    }
+}
+
+#[verifier::loop_isolation(false)]
+//@unit id=V8p file=src/main.rs fn=with_printable_paths ret=r optional=1
+//@contract
+    ensures
+        // a text is a key of the result iff it is the printable text of some file of the report
+        forall|s: String| #[trigger] r@.contains_key(s) <==> exists|f: PathBuf| report@.contains_key(f) && #[trigger] path_text(f) == s@, // [V8p.post.keys_are_the_texts_of_the_files]
+        // under a text stand the lists of ALL files with that text, each exactly once, nothing else
+        forall|s: String| #[trigger] r@.contains_key(s) ==> exists|order: Seq<PathBuf>| #[trigger] files_with_text(report@, s@, order) && r@[s]@ == concat_lists(report@, order), // [V8p.post.every_list_exactly_once_under_its_text]
+        // summary used by V8 / M1
+        is_printable(r@, report@), // [V8p.post.is_printable]
+//@chain rule=E13 find=<<.to_string_lossy().into_owned()>> to=verif_path_text recvprefix=<<&>>
+//@edit rule=E5 find=<<$m.entry(verif_path_text(&$p)).or_default().extend($v)>> optional=1
+verif_map_extend(&mut $m, verif_path_text(&$p), $v)
+//@edit rule=E5 find=<<$m.entry(verif_path_text(&$p)).or_insert_with(Vec::new).extend($v)>> optional=1
+verif_map_extend(&mut $m, verif_path_text(&$p), $v)
+//@edit rule=ghost before=<<let mut result>>
+    broadcast use axiom_pathbuf_key_model, axiom_string_key_model, axiom_string_view_injective;
+//@edit rule=E4 find=<<for ($a, $b) in report>>
+    let verif_entries = verif_into_entries(report);
+    let ghost ents = verif_entries@;
+    for ($a, $b) in it: verif_entries
+        invariant
+            // a text is a key iff it is the text of a file seen so far
+            forall|s: String| #[trigger] result@.contains_key(s) <==> exists|i: int| 0 <= i < it.index@ && path_text((#[trigger] ents[i]).0) == s@, // [V8p.inv.keys_so_far]
+            // and under it are the lists of the files seen so far with that text, each once, in the order seen
+            forall|s: String| #[trigger] result@.contains_key(s) ==> result@[s]@ == texts_concat(ents, s@, it.index@ as int), // [V8p.inv.lists_so_far]
+            it.seq() == ents,
+            entries_raw(ents, report@),
+//@edit rule=ghost before=<<verif_map_extend(>>
+        let ghost result0 = result@;
+        let ghost n = it.index@ as int;
+//@edit rule=ghost after=<<verif_map_extend(&mut $m, verif_path_text(&$p), $v);>>
+        proof {
+            let t = path_text(ents[n].0);
+            assert forall|s: String| #[trigger] result@.contains_key(s) <==> exists|i: int| 0 <= i < n + 1 && path_text((#[trigger] ents[i]).0) == s@ by {
+                if result0.contains_key(s) {
+                    let i = choose|i: int| 0 <= i < n && path_text((#[trigger] ents[i]).0) == s@;
+                    assert(0 <= i < n + 1 && path_text(ents[i].0) == s@);
+                }
+                if s@ == t {
+                    assert(0 <= n < n + 1 && path_text(ents[n].0) == s@);
+                }
+            }
+            assert forall|s: String| #[trigger] result@.contains_key(s) implies result@[s]@ == texts_concat(ents, s@, n + 1) by {
+                if s@ == t {
+                    if !result0.contains_key(s) {
+                        lemma_texts_none(ents, s@, n);
+                    }
+                    assert(result@[s]@ =~= texts_concat(ents, s@, n) + ents[n].1@);
+                } else {
+                    assert(result0.contains_key(s));
+                    assert(result@[s] == result0[s]);
+                }
+            }
+        }
+//@edit rule=ghost before=<<result }>>
+    proof {
+        // E4: `ents` enumerates the map in an arbitrary order; whatever it is, nothing is lost or duplicated
+        lemma_printable(result@, report@, ents);
+    }
+//@end
 
 #[verifier::loop_isolation(false)]
 //@unit id=V8 file=src/main.rs fn=process_violations ret=r
@@ -224,13 +497,6 @@ fn main_run_and_report(context: ValidationContext, sync_validators: Vec<Box<dyn 
 //@edit rule=ghost after=<<let violations = validators::run(Arc::new(context), sync_validators, async_validators)?;>>
     proof { lemma_vmap(violations@); }
 //@end
-
-// INTERIM (being replaced by unit V8p): `with_printable_paths` of src/main.rs as a trusted stub
-pub uninterp spec fn printable_spec(m: Map<PathBuf, Vec<serde_json::Value>>) -> Map<String, Vec<serde_json::Value>>;
-#[verifier::external_body]
-pub fn with_printable_paths(report: HashMap<PathBuf, Vec<serde_json::Value>>) -> (r: HashMap<String, Vec<serde_json::Value>>)
-    ensures r@ == printable_spec(report@)
-{ unimplemented!() }
 
 } // verus!
 fn main() {}
